@@ -49,6 +49,15 @@ chk("C15", "exploration",
     "trusts refcar; callbacks' Offset/Size semantics (section start, whole section) taken from the code since the API does not document them; merkledag.WalkOptions such as SkipRoot are outside the property's quantifier and not generated",
     "runtime monitoring: recorded load log at the link-system boundary vs reference-decoded output bytes and announced sizes", "DESIGN.md §6 C15")
 
+chk("C04", "exploration",
+    "Runtime monitor against an executable reference model: EVERY history of length ≤ 3 (quick) / ≤ 4 (thorough) over {Put of 9 designed blocks, 2 PutMany batches, Finalize, FinalizeReadOnly, Close, Discard} x 10/14 option configurations x {blockstore.ReadWrite, storage.StorageCar on a memfile}, plus random histories of length 10-60; after every step all lookups (Has/Get/GetSize of 9 keys, AllKeysChan, Roots) and the payload bytes on file are compared with the model; after a terminal operation all operations are re-run (errors required, file frozen). Exhaustive within the stated bound only.",
+    "trusts the model (harness/internal/lab/model.go: documented admission rules) and refcar; answers are compared against admissible sets so that the model never demands more than the statement",
+    "runtime monitoring: step-by-step comparison of public API results and file bytes with an executable map model over exhaustively enumerated short histories", "DESIGN.md §6 C04")
+chk("C19", "exploration",
+    "Runtime monitor on the car binary built from the working tree: seeded valid archives (6 container classes, identity/duplicate/equal-multihash blocks, roots in/out of the block set, small DAGs) x ~35 command forms (create, index with 3 codecs/--version 1, index create, detach-index, filter plain/inverse/append/--version 1, get-dag with selectors and versions, get-block, list, root, concat v1/v2); every emitted archive goes to `car inspect --full` and (when its roots are blocks) `car verify`, and is decoded by the reference and compared with the expectation computed from the input (selected blocks in source order, payload unchanged + index lookup-equal to a regenerated one, exact block bytes, scan order, concatenation).",
+    "trusts refcar and the harness's own CID text codecs; commands that legitimately refuse a combination are not judged (listed in DESIGN.md); `car verify` on zero-root outputs is not judged (precondition vacuous)",
+    "runtime monitoring: black-box child-process executions judged by acceptance oracles (the tool's own verifiers) and a reference-decoder content oracle", "DESIGN.md §6 C19")
+
 NOT_YET = {}
 
 def main():
